@@ -10,7 +10,7 @@ typedef struct TcpEngine {
   TransportConfig _config; AtomicStats _atomicStats; int _epollFd, _eventFd, _timerFd;
   iora_mutex _cbMutex, _sessionRwMutex, _cmdMutex; Callbacks _cbs;
   iora_smapN _sessions; iora_lmapN _listeners; iora_tmapN _fdTags; iora_cmdq _cmds; bool _cmdsClosed;
-  SessionId _nextSessionId; TimerService *_timerService; void *_sslCli;      /* SSL_CTX* of the client side */
+  SessionId _nextSessionId; TimerService *_timerService; void *_sslCli, *_sslSrv;      /* SSL_CTX* of the client side */
 } TcpEngine;
 
 /* ---- witnesses: one arbitrary session id and one arbitrary fd; the stubs count the events that concern them ---- */
@@ -79,6 +79,11 @@ static inline int iora_getsockopt(int fd, int level, int opt, int *val, socklen_
 static inline int iora_getpeername(int fd, struct sockaddr *a, socklen_t *len) { (void)fd; (void)a; (void)len; G_errno = nondet_int(); return nondet_bool() ? -1 : 0; }
 static inline void iora_freeaddrinfo(addrinfo *r) { if (G_freeaddr_calls < 0x7fffffffu) G_freeaddr_calls++; G_freeaddr_arg = r; }
 static inline const char *TcpEngine_lastErr(TcpEngine *self) { (void)self; return IORA_MSG; }
+unsigned G_acccb_calls, G_acccbw_calls; bool G_acccb_in_table; unsigned G_datacb_calls;
+static inline void iora_cb_onAccept(TcpEngine *self, SessionId sid)
+{ IORA_ASSERT(!self->_cbMutex.held && !self->_sessionRwMutex.held, "CB1 user callback runs outside the engine mutexes");
+  if (G_acccb_calls < 0x7fffffffu) G_acccb_calls++; if (sid == G_WSID && G_acccbw_calls < 0x7fffffffu) G_acccbw_calls++;
+  G_acccb_in_table = iora_smapN_lookup(&self->_sessions, sid) != 0; ++G_seq; }
 /* bumpSess(): sessionsCurrent.fetch_add(1), peak = max(peak, current) (CAS loop; here sequential) */
 static inline void TcpEngine_bumpSess(TcpEngine *self) { self->_atomicStats.sessionsCurrent++; if (self->_atomicStats.sessionsCurrent > self->_atomicStats.sessionsPeak) self->_atomicStats.sessionsPeak = self->_atomicStats.sessionsCurrent; }
 static inline void TcpEngine_cancelConnectTimeout(TcpEngine *self, Session *s) { (void)self; if (nondet_bool()) s->connectTimeoutId = 0; }
